@@ -88,7 +88,10 @@ func runRW(r *common.Run) {
 		if !r.Thorough() && n > bs+bs/2 && rng.Intn(3) != 0 {
 			n = lens[rng.Intn(6)] // keep the quick tier inside its budget
 		}
-		sp.Payload = genPayload(rng, n)
+		// orig is what the state machine wrote (buildFile hands a private copy to the writers, so a
+		// writer that scribbles over its input cannot make the comparison agree with itself)
+		orig := genPayload(rng, n)
+		sp.Payload = orig
 		sp.WSegs = genSegs(rng, n)
 		rs := genReadSizes(rng, n)
 		wit := rwWitness{Case: c, Kind: sp.Kind, CT: int(sp.CT), Len: n, PayloadH: common.Hash(sp.Payload),
@@ -122,6 +125,9 @@ func runRW(r *common.Run) {
 			continue
 		}
 		wit.FileLen = len(bf.Bytes)
+		if bf.InputModified {
+			r.Count("writer_modified_its_input", 1)
+		}
 		r.Count("bytes_written", int64(len(bf.Bytes)))
 
 		// (1) recorded size / checksum against the file, and the harness's own
@@ -159,12 +165,12 @@ func runRW(r *common.Run) {
 					viol("Snapshot.Validate", fmt.Sprintf("pb.Snapshot.Validate ok=%v panic=%v", ok, pv))
 				}
 			}
-			if sp.CT == pb.NoCompression && !bytes.Equal(stored, sp.Payload) {
-				viol("stored-bytes", fmt.Sprintf("blocks hold different bytes (first difference at %d)", firstDiff(stored, sp.Payload)))
+			if sp.CT == pb.NoCompression && !bytes.Equal(stored, orig) {
+				viol("stored-bytes", fmt.Sprintf("blocks hold different bytes (first difference at %d)", firstDiff(stored, orig)))
 			}
 			if sp.CT == pb.Snappy {
 				dec, derr := io.ReadAll(snappy.NewReader(bytes.NewReader(stored)))
-				if derr != nil || !bytes.Equal(dec, sp.Payload) {
+				if derr != nil || !bytes.Equal(dec, orig) {
 					viol("stored-bytes", fmt.Sprintf("blocks do not decompress to the payload (err=%v)", derr))
 				}
 			}
@@ -177,9 +183,9 @@ func runRW(r *common.Run) {
 			viol("load-failed", "intact file not loadable: "+res.Err+res.Panic)
 			continue
 		}
-		if !bytes.Equal(res.Data, sp.Payload) {
-			wit.FirstDiff = firstDiff(res.Data, sp.Payload)
-			viol("bytes-differ", fmt.Sprintf("read back %d bytes, wrote %d, first difference at %d", len(res.Data), len(sp.Payload), wit.FirstDiff))
+		if !bytes.Equal(res.Data, orig) {
+			wit.FirstDiff = firstDiff(res.Data, orig)
+			viol("bytes-differ", fmt.Sprintf("read back %d bytes, wrote %d, first difference at %d", len(res.Data), len(orig), wit.FirstDiff))
 			continue
 		}
 		r.Count("bytes_read_back_identical", int64(len(res.Data)))
@@ -194,7 +200,7 @@ func runRW(r *common.Run) {
 		if rng.Intn(3) == 0 {
 			res2 := loadFile(fs, fp, genReadSizes(rng, n))
 			r.Count("loads", 1)
-			if res2.failed() || !bytes.Equal(res2.Data, sp.Payload) {
+			if res2.failed() || !bytes.Equal(res2.Data, orig) {
 				viol("bytes-differ-second-read", "second load with another read pattern differs: "+res2.Err+res2.Panic)
 			}
 		}
